@@ -190,8 +190,7 @@ pub fn run(ctx: &mut Ctx) {
         density/one depth/terminals only/all-but-one/exactly-one/cycle states) plus 0-2 eventually bystanders, \
         checked by BFS, DFS, on-demand at random thread counts in {1,2,4,8}; mirror-symmetric graphs with \
         invariant labels checked by DFS with symmetry. Non-trivial: >=2 reachable states and the expected \
-        verdicts are mixed (some property must have a discovery and some must not)."
-        .into();
+        verdicts are mixed (some property must have a discovery and some must not). The Checker helper methods (discovery, assert_any_discovery, assert_no_discovery, assert_discovery) must agree with discoveries(); (before_completion) an on-demand checker that was not asked to do anything yet must not be done nor present a verdict.".into();
     ctx.assumptions = vec!["u32 states: 64-bit fingerprint collisions are ignored".into()];
     let ctx = &*ctx;
     ctx.cases("verdicts", ctx.n(3000, 40000), 0, |case| {
